@@ -78,10 +78,108 @@ type SchedInfo struct {
 func (e *Engine) resetAtRest(c *Config) {
 	for _, f := range c.stack {
 		for i := range f.loops {
-			f.loops[i].iter = 0
+			f.loops[i].unw = 0
+			if !e.loopMayAlloc(f.fn, f.loops[i].h) {
+				f.loops[i].iter = 0
+			}
 		}
 	}
 	c.fuel = false
+}
+
+// loopMayAlloc: may the body of the loop with header h (transitively) execute a site that names an
+// object or goroutine? Such loops keep their iteration counter across transitions.
+func (e *Engine) loopMayAlloc(fn *ssa.Function, h *ssa.BasicBlock) bool {
+	key := fmt.Sprintf("%p/%d", fn, h.Index)
+	if v, ok := e.loopAllocMemo[key]; ok {
+		return v
+	}
+	li := e.loopInfoOf(fn)
+	res := false
+	for b := range li.body[h] {
+		if e.blockMayAlloc(b, map[*ssa.Function]bool{fn: true}) {
+			res = true
+			break
+		}
+	}
+	e.loopAllocMemo[key] = res
+	return res
+}
+
+var nonAllocModels = map[string]bool{
+	"(*sync.Mutex).Lock": true, "(*sync.Mutex).Unlock": true, "(*sync.Mutex).TryLock": true,
+	"(*sync.RWMutex).Lock": true, "(*sync.RWMutex).Unlock": true, "(*sync.RWMutex).RLock": true, "(*sync.RWMutex).RUnlock": true,
+	"(*sync.RWMutex).TryRLock": true, "(*sync.RWMutex).TryLock": true,
+	"(*sync.Cond).Wait": true, "(*sync.Cond).Broadcast": true, "(*sync.Cond).Signal": true,
+	"(*sync.WaitGroup).Add": true, "(*sync.WaitGroup).Done": true, "(*sync.WaitGroup).Wait": true,
+	"time.Sleep": true, "time.Now": true, "time.Since": true,
+}
+
+func (e *Engine) fnMayAlloc(fn *ssa.Function, seen map[*ssa.Function]bool) bool {
+	if v, ok := e.fnAllocMemo[fn]; ok {
+		return v
+	}
+	if seen[fn] {
+		return false
+	}
+	seen[fn] = true
+	res := false
+	for _, b := range fn.Blocks {
+		if e.blockMayAlloc(b, seen) {
+			res = true
+			break
+		}
+	}
+	e.fnAllocMemo[fn] = res
+	return res
+}
+
+func (e *Engine) blockMayAlloc(b *ssa.BasicBlock, seen map[*ssa.Function]bool) bool {
+	for _, ins := range b.Instrs {
+		switch x := ins.(type) {
+		case *ssa.Alloc, *ssa.MakeSlice, *ssa.MakeMap, *ssa.MakeChan, *ssa.Go:
+			return true
+		case ssa.CallInstruction:
+			cm := x.Common()
+			if cm.IsInvoke() {
+				n := cm.Method.Name()
+				if n == "Lock" || n == "Unlock" || n == "Err" || n == "Done" {
+					continue
+				}
+				return true
+			}
+			switch v := cm.Value.(type) {
+			case *ssa.Builtin:
+				if v.Name() == "append" {
+					return true
+				}
+			case *ssa.Function:
+				name := v.String()
+				if strings.HasPrefix(name, "(*sync/atomic.") || nonAllocModels[name] {
+					continue
+				}
+				if v.Blocks == nil && strings.HasPrefix(v.Name(), "verif") {
+					continue
+				}
+				if _, isModel := models[name]; isModel {
+					return true
+				}
+				if len(v.Blocks) == 0 {
+					return true
+				}
+				if e.fnMayAlloc(v, seen) {
+					return true
+				}
+			case *ssa.MakeClosure:
+				if e.fnMayAlloc(v.Fn.(*ssa.Function), seen) {
+					return true
+				}
+			default:
+				return true
+			}
+		}
+	}
+	return false
 }
 
 func (e *Engine) isIdleExempt(c *Config) bool {
